@@ -127,6 +127,65 @@ def r9(report, db, P, cg, classes):
             else:
                 continue
             break
+    # every codec call of a hand-written reader / writer is made on the
+    # function's own stream (value and stream not swapped, no other stream)
+    Rs = report.rule('R05.9s', 'hand-written readers / writers hand their '
+                     'own stream to every codec call, in the stream\'s '
+                     'argument position')
+    codecs = []
+    for cv in sorted(classes, key=lambda c: c.ci.fq):
+        rd, wr = P.custom_codec(cv.ci)
+        for f, role in ((rd, 'r'), (wr, 'w')):
+            if f is not None and (f, role) not in codecs:
+                codecs.append((f, role))
+    for f in writers:
+        if (f, 'w') not in codecs:
+            codecs.append((f, 'w'))
+    ncalls = 0
+    for f, role in codecs:
+        names = list(f.params)
+        if f.kind in ('instance', 'class') and names:
+            names = names[1:]
+        if not names:
+            continue
+        if role == 'w':
+            stream = names[0] if f.name == 'write_fields' else (
+                names[1] if len(names) > 1 else None)
+        else:
+            stream = names[0]
+        if stream is None:
+            continue
+        try:
+            paths = S.run(f)
+        except AnalysisError:
+            continue
+        for p in paths:
+            for e in p.flat(('call',)):
+                m = e.method()
+                if m in ('send', 'send_with_context') and role == 'w':
+                    pos = 1
+                elif m in ('read', 'read_with_context') and role == 'r':
+                    pos = 0
+                else:
+                    continue
+                if not any(db.is_subclass(t.cls, P.type_ci)
+                           for t in (e.targets or ())
+                           if t.cls is not None):
+                    continue
+                ncalls += 1
+                a = e.args[pos] if len(e.args) > pos else None
+                if a is not None and _st(a) == ('sym', stream):
+                    report.ok(Rs)
+                else:
+                    report.violation(
+                        Rs, 'stream-arg:%s' % f.qualname, f.path, e.node,
+                        f.qualname, '%s is given %s where the stream `%s` '
+                        'belongs: the codec would %s something that is not '
+                        'this packet\'s buffer' % (
+                            show(e.fn)[:40], show(a) if a is not None
+                            else 'nothing', stream,
+                            'write to' if role == 'w' else 'read from'))
+    report.floor('codec calls of hand-written readers / writers', ncalls, 60)
     report.floor('hand-written writers checked for presence-by-truth', n, 9)
     if not any(f.rule == R for f in report.violations):
         report.ok(R, '%d hand-written writers: no optional field is dropped '
@@ -497,6 +556,21 @@ def definition_problem(P, d):
 def bad_constituent(P, t):
     if isinstance(t, Instance):
         args, kwargs = t.ctor_args or ([], {})
+        # each constructor argument in the role its parameter has: a
+        # `..._type` parameter takes a wire type, anything else a number
+        init = P.db.find_method(t.ci, '__init__')
+        if init is not None and not init.node.args.vararg:
+            names = list(init.params[1:])
+            given = dict(zip(names, args))
+            given.update(kwargs)
+            for pn, a in given.items():
+                is_ty = isinstance(a, (ClassVal, Instance))
+                if pn.endswith('type') and not is_ty:
+                    return '%s(%s=%r): a wire type is expected there' % (
+                        t.ci.name, pn, a)
+                if not pn.endswith('type') and is_ty:
+                    return '%s(%s=%s): a number is expected there' % (
+                        t.ci.name, pn, type_name(a))
         for a in list(args) + list(kwargs.values()):
             if isinstance(a, (ClassVal, Instance)):
                 if not P.is_type(a):
